@@ -379,9 +379,12 @@ func (rn *run11) bindR() {
 }
 
 func (rn *run11) bindStream(s *stream) {
-	if s.bound {
+	if s.bound && (!s.local || rn.closed) {
 		return
 	}
+	// a local stream that is still bound is bound AGAIN (renegotiation without an Unbind): a new
+	// next writer, and the same "starts from fresh state" expectations as after Unbind + Bind
+	rebindWithoutUnbind := s.bound
 	s.info = zoo.Info(s.opts)
 	beforeBind := rn.rg.Clk.Tick()
 	op := "BindRemoteStream"
@@ -400,6 +403,9 @@ func (rn *run11) bindStream(s *stream) {
 		if !rn.call(op, func() { s.r = rn.b.I.BindRemoteStream(s.info, s.feed) }) {
 			return
 		}
+	}
+	if rebindWithoutUnbind {
+		rn.c.Add("binds_of_a_stream_that_was_still_bound", 1)
 	}
 	s.bound = true
 	s.epoch++
